@@ -372,6 +372,12 @@ func (rw *rewriter) collect(f *ast.File) {
 			if id, ok := x.Fun.(*ast.Ident); ok {
 				if b, ok := rw.info.Uses[id].(*types.Builtin); ok {
 					switch b.Name() {
+					case "append":
+						// append writes into the spare capacity of its first argument's array: whoever else holds a
+						// slice of that array (the caller of a variadic function, a pool) sees that write
+						if rw.opt.Memory && len(x.Args) >= 2 {
+							rw.chanCalls[x] = "append"
+						}
 					case "close":
 						rw.chanCalls[x] = "Close"
 					case "len", "cap":
@@ -495,6 +501,9 @@ func (rw *rewriter) apply(f *ast.File) {
 				c.Replace(method(x.Args[0], "Close"))
 			case "Len", "Cap":
 				c.Replace(method(x.Args[0], rw.chanCalls[x]))
+			case "append":
+				rw.usesVS = true
+				x.Args[0] = call(vs("AppendTo"), x.Args[0])
 			}
 		case *ast.SendStmt:
 			if rw.commStmts[x] {
